@@ -344,10 +344,24 @@ func VH_pp_allow() {
 	ip := vapi.BytesN("ip", 4)
 	st.conn.Remote = &net.TCPAddr{IP: net.IP(ip), Port: 5555}
 	useHeader(1) // v2 PROXY TCP4 192.0.2.1:1000 -> 192.0.2.2:2000
-	pp := &l4proxyprotocol.Handler{Allow: []string{"10.0.0.0/8", "192.168.1.0/24", "192.168.1.7/32"}}
+	var allow []string
+	var allowed bool
+	in10 := ip[0] == 10
+	in192 := ip[0] == 192 && ip[1] == 168 && ip[2] == 1
+	is172 := ip[0] == 172 && ip[1] == 16 && ip[2] == 5 && ip[3] == 7
+	switch vapi.Choice("allow list", 4) {
+	case 0: // nested and disjoint entries; one peer is covered by the most specific entry only
+		allow, allowed = []string{"10.0.0.0/8", "192.168.1.0/24", "192.168.1.7/32", "172.16.5.7/32"}, in10 || in192 || is172
+	case 1: // a single entry
+		allow, allowed = []string{"10.0.0.0/8"}, in10
+	case 2: // duplicates
+		allow, allowed = []string{"192.168.1.0/24", "10.0.0.0/8", "192.168.1.0/24", "10.0.0.0/8"}, in10 || in192
+	case 3: // a single host
+		allow, allowed = []string{"172.16.5.7/32"}, is172
+	}
+	pp := &l4proxyprotocol.Handler{Allow: allow}
 	vapi.Assert(pp.Provision(caddy.Context{}) == nil, "provision")
 	l4proxyprotocol.VerifQuiet(pp)
-	allowed := ip[0] == 10 || (ip[0] == 192 && ip[1] == 168 && ip[2] == 1)
 	ar := &addrRec{cx0: cx}
 	if allowed {
 		st.base += hdrLen
